@@ -446,7 +446,7 @@ func Feasible(fn *ssa.Function, assume map[string]bool) *Feas {
 		if ifi := IfOf(b); ifi != nil {
 			nc := Normalize(ifi.Cond)
 			for k, re := range res {
-				if re.MatchString(nc.Base) {
+				if nc.Matches(re) {
 					for si := range b.Succs {
 						val := (si == 0) == nc.Pol
 						if val != assume[k] {
